@@ -12,7 +12,7 @@
 From AV Require Import Lib.Base Gen.Consts H2.Prepare H2.SendLoop H2.Spec
   H2.PrepareProofs H2.SendLoopProofs H2.ResponseProofs H2.ErrorProofs
   H2.RecvPayload H2.RecvPayloadProofs H2.Dispatch H2.DispatchProofs
-  Gen.H2Tables H2.TablesTie.
+  Gen.H2Tables H2.TablesTie H2.LengthProofs H2.ConnWindow H2.ConnWindowProofs.
 
 Definition C := H2_CHUNK_SIZE.
 
@@ -368,3 +368,152 @@ Example C08_example_request_side :
         [mkPP [] true true; mkPP [PgReady] false true] =
       ([(1, false); (3, true)], DOk, [PSendPing; PResetTimer; PResetTimer]).
 Proof. split; vm_compute; reflexivity. Qed.
+
+(* ---------------------------------------------------------------- session 4 *)
+
+(* skip_len as the copy loop sees it, for the four BodySize cases (None, Sized(0), Sized(n), Stream)
+   and every status: true for every size but Stream (initialiser `size != &BodySize::Stream`), and
+   for Stream exactly under 101. A handler-supplied content-length is copied iff it is false. *)
+Theorem C08_skip_len_rule : forall status size,
+  fst (status_size status (skip_len_init size) size) =
+  match size with SNone | SSized _ => true | SStream => status =? 101 end.
+Proof. exact skip_len_final. Qed.
+
+(* the initialiser is the one the translator evaluates from the source expression *)
+Theorem C08_skip_len_init_matches_generated : forall size,
+  skip_len_init size =
+  match size with
+  | SNone => H2_SKIP_LEN_INIT_NONE | SSized _ => H2_SKIP_LEN_INIT_SIZED | SStream => H2_SKIP_LEN_INIT_STREAM
+  end.
+Proof. exact skip_len_init_matches_generated. Qed.
+
+(* All content-length values of the emitted head, for EVERY size, status and handler header set
+   (no premise on the handler's headers): the function's own `itoa n` for the final size Sized n,
+   followed -- only next to a Stream body outside 101 -- by the handler's own values. *)
+Theorem C08_content_length_values : forall now status hdrs size,
+  values_of h_content_length (fst (prepare_response now status hdrs size)) =
+  (match snd (prepare_response now status hdrs size) with SSized n => [itoa n] | _ => [] end)
+  ++ (match size with
+      | SStream => if status =? 101 then [] else values_of h_content_length hdrs
+      | _ => []
+      end).
+Proof. exact content_length_values_all. Qed.
+
+(* None / Sized body, ANY handler header set (a handler-supplied content-length, right or wrong,
+   included), any status, any schedule: every content-length value on the wire of a completed
+   non-HEAD response is the number of DATA bytes (premise: a Sized body yields what it declares;
+   see C08_sized_claim_unchecked for the other case). *)
+Theorem C08_content_length_wire : forall now r caps sds t,
+  handle_response C now r true caps sds = (t, ODone) ->
+  r_head_req r = false -> r_size r <> SStream ->
+  (forall n, r_size r = SSized n -> n = lenN (body_bytes (r_body r))) ->
+  exists hs eos tb, t = OHead hs eos :: tb /\
+    forall v, In v (values_of h_content_length hs) -> v = itoa (lenN (data_of t)).
+Proof. exact (content_length_wire C). Qed.
+
+Example C08_content_length_wire_example :
+  let r := mkResp false 200 [(h_content_length, [53])] SNone [] in
+  handle_response C [] r true [] [] = ([OHead [(h_date, [])] true], ODone)
+  /\ r_size r <> SStream.
+Proof. split; [vm_compute; reflexivity|discriminate]. Qed.
+
+(* Task 2 -- a body that declares Sized(n), n > 0, and yields another number of bytes: the head
+   says n, the DATA frames carry exactly what the body yields, END_STREAM follows and the function
+   returns Ok(()): nothing compares n with the bytes, no reset, no error, for any n. *)
+Theorem C08_sized_claim_unchecked : forall now r caps sds t n,
+  handle_response C now r true caps sds = (t, ODone) ->
+  r_head_req r = false -> code_no_length (r_status r) = false ->
+  r_size r = SSized n -> n <> 0 ->
+  exists hs tb, t = OHead hs false :: tb /\
+    values_of h_content_length hs = [itoa n] /\
+    data_of t = body_bytes (r_body r) /\ body_fails (r_body r) = false /\
+    exists t0, t = t0 ++ [OData [] true].
+Proof. exact (sized_claim_unchecked C). Qed.
+
+(* "a content-length that matches when one is sent" is false of the code for a body whose size()
+   lies: content-length 5, three bytes, END_STREAM, Ok(()) (short), and content-length 1, three
+   bytes (long). The positive statement outside this class is C08_content_length_wire /
+   C08_content_length_matches_partial. *)
+Theorem C08_refuted_content_length_lying_size :
+  exists r1 r2 caps t1 t2,
+    handle_response C [] r1 true caps [] = (t1, ODone) /\
+    handle_response C [] r2 true caps [] = (t2, ODone) /\
+    (exists hs tb, t1 = OHead hs false :: tb /\ values_of h_content_length hs = [itoa 5]) /\
+    lenN (data_of t1) = 3 /\
+    (exists hs tb, t2 = OHead hs false :: tb /\ values_of h_content_length hs = [itoa 1]) /\
+    lenN (data_of t2) = 3.
+Proof.
+  exists (mkResp false 200 [] (SSized 5) [BChunk [1;2;3]]),
+         (mkResp false 200 [] (SSized 1) [BChunk [1;2;3]]), [CapOk 3].
+  eexists. eexists. split; [vm_compute; reflexivity|]. split; [vm_compute; reflexivity|].
+  split; [eexists; eexists; split; [reflexivity|vm_compute; reflexivity]|].
+  split; [vm_compute; reflexivity|].
+  split; [eexists; eexists; split; [reflexivity|vm_compute; reflexivity]|vm_compute; reflexivity].
+Qed.
+
+(* ---- the shared connection window (H2/ConnWindow.v) ----
+   [assign] is h2 distributing the connection window; the premises are the hypotheses about h2:
+   distributing changes only assigned amounts, what a stream holds stays assigned while it is open
+   (monotone), and a stream is never given more than it requested. With the code's reservation
+   rule -- never more than the unsent remainder: min(len, CHUNK_SIZE) <= len -- in every reachable
+   state (any interleaving of chunk arrivals, sends and peer grants on any number of streams)
+   each stream holds at most what it requested and requested at most its own unsent bytes. *)
+Theorem C08_held_capacity_le_pending : forall (assign : cst -> cst),
+  (forall c, Forall2 (fun s s' => s_pend s' = s_pend s /\ s_req s' = s_req s /\ s_asg s <= s_asg s' /\
+                                  (s_asg s <= s_req s -> s_asg s' <= s_req s'))
+                     (c_streams c) (c_streams (assign c))) ->
+  forall evs c, Forall held_ok (c_streams c) ->
+    Forall held_ok (c_streams (fold_left (step (fun len => N.min len C) assign) evs c)).
+Proof.
+  intros assign H evs c. apply held_le_pending; [exact H|intro len; lia].
+Qed.
+
+(* hence a stream whose handler idles (no unsent bytes) holds NO connection window, however many
+   chunks it sent before *)
+Theorem C08_idle_streams_hold_nothing : forall (assign : cst -> cst),
+  (forall c, Forall2 (fun s s' => s_pend s' = s_pend s /\ s_req s' = s_req s /\ s_asg s <= s_asg s' /\
+                                  (s_asg s <= s_req s -> s_asg s' <= s_req s'))
+                     (c_streams c) (c_streams (assign c))) ->
+  forall evs c, Forall held_ok (c_streams c) ->
+    Forall (fun s => s_pend s = 0 -> s_asg s = 0)
+           (c_streams (fold_left (step (fun len => N.min len C) assign) evs c)).
+Proof.
+  intros assign H evs c. apply idle_streams_hold_nothing; [exact H|intro len; lia].
+Qed.
+
+(* and a stream waiting for capacity next to any number of idle streams receives every positive
+   grant of the peer (premises 2 and 3 about h2: distribution conserves the window and leaves none
+   unassigned while a stream still asks): after the grant it holds min(held + window + grant,
+   request) > 0, so its next send makes progress (C08_progress). *)
+Theorem C08_grant_reaches_waiting_stream_partial : forall (assign : cst -> cst),
+  (forall c, Forall2 (fun s s' => s_pend s' = s_pend s /\ s_req s' = s_req s /\ s_asg s <= s_asg s' /\
+                                  (s_asg s <= s_req s -> s_asg s' <= s_req s'))
+                     (c_streams c) (c_streams (assign c))) ->
+  (forall c, c_win (assign c) + sum_asg (c_streams (assign c)) = c_win c + sum_asg (c_streams c)) ->
+  (forall c, c_win (assign c) = 0 \/ Forall (fun s => s_req s <= s_asg s) (c_streams (assign c))) ->
+  forall win a idles g,
+    held_ok a -> Forall idle_ok idles -> 0 < s_req a -> 0 < g ->
+    exists a' idles',
+      c_streams (step (fun len => N.min len C) assign (mkC win (a :: idles)) (EGrant g)) = a' :: idles' /\
+      s_pend a' = s_pend a /\ s_req a' = s_req a /\
+      N.min (s_asg a + win + g) (s_req a) <= s_asg a' /\ 0 < s_asg a' /\
+      Forall idle_ok idles'.
+Proof.
+  intros assign H1 H2 H3 win a idles g. apply grant_reaches_waiting_stream; assumption.
+Qed.
+
+(* non-vacuity: the first-come-first-served distribution satisfies premise 1; five streams that
+   each sent a 10-byte chunk and idle, a sixth with a 40 000-byte chunk, window 65 535: under the
+   code's rule the sixth stream is assigned its whole request of 16 384 bytes; had the loop
+   reserved CHUNK_SIZE regardless of the chunk, the five idle streams would hold 4 x 16 374 + 39
+   bytes and the sixth would get nothing *)
+Example C08_conn_window_example :
+  let idle5 := [EChunk 0 10; ESend 0; EChunk 1 10; ESend 1; EChunk 2 10; ESend 2;
+                EChunk 3 10; ESend 3; EChunk 4 10; ESend 4; EChunk 5 40000] in
+  let c0 := mkC 65535 (repeat (mkSst 0 0 0) 6) in
+  map s_asg (c_streams (fold_left (step (fun len => N.min len C) assign_ref) idle5 c0))
+    = [0; 0; 0; 0; 0; 16384]
+  /\ map s_asg (c_streams (fold_left (step (fun _ => C) assign_ref) idle5 c0))
+    = [16374; 16374; 16374; 16373; 0; 0]
+  /\ Forall held_ok (c_streams c0).
+Proof. split; [vm_compute; reflexivity|split; [vm_compute; reflexivity|]]. repeat constructor; cbn; lia. Qed.
